@@ -136,15 +136,20 @@ def build_T11(tree):
                          doc='`ImageFileReader._bytes_per_frame_uncompressed`')
     fn2 = find_func(tree, f'{cls}.read_frame_raw')
     body2 = strip_doc(fn2.body)
+    # the guard is the first statement, possibly after conversions of the argument (`index = operator.index(index)`)
+    lead = []
+    while body2 and isinstance(body2[0], ast.Assign) and ast.unparse(body2[0].targets[0]) == 'index':
+        lead.append(body2[0])
+        body2 = body2[1:]
     guard = body2[0]
     if not (isinstance(guard, ast.If) and 'index' in ast.unparse(guard.test)):
         raise Unsupported('index guard of read_frame_raw not found as first statement')
-    block = [guard, ast.parse('return index').body[0]]
+    block = lead + [guard, ast.parse('return index').body[0]]
     t2 = translate_block(block, 'lazyIndexGuard', [('index', 'int')],
                          {'self.number_of_frames': ('int', 'numberOfFrames')},
                          doc='`ImageFileReader.read_frame_raw`: the guard on `index` (result = accepted index)')
     # native offset table: `_read_metadata` builds offsets as i * bytes_per_frame?  located by name
-    return t1 + '\n\n' + t2, span_sha(body) + span_sha([guard])[:8]
+    return t1 + '\n\n' + t2, span_sha(body) + span_sha(lead + [guard])[:8]
 
 
 def build_T5(tree):
@@ -335,7 +340,11 @@ def build_T1b(tree):
         dec = one(lambda n: isinstance(n, ast.Call) and ast.unparse(n.func) == 'decode_frame', 'call of decode_frame')
         dk = {k.arg: ast.unparse(k.value) for k in dec.keywords}
         want = {'value': 'raw_frame', 'rows': 'self.Rows', 'columns': 'self.Columns', 'samples_per_pixel': 'self.SamplesPerPixel',
-                'bits_allocated': 'self.BitsAllocated', 'transfer_syntax_uid': 'self.transfer_syntax_uid'}
+                'bits_allocated': 'self.BitsAllocated', 'transfer_syntax_uid': 'self.transfer_syntax_uid',
+                'bits_stored': "self.get('BitsStored', self.BitsAllocated)",
+                'photometric_interpretation': 'self.PhotometricInterpretation',
+                'pixel_representation': 'self.PixelRepresentation',
+                'planar_configuration': "self.get('PlanarConfiguration')"}
         for k, v in want.items():
             if dk.get(k) != v:
                 raise Unsupported(f'{fname}: decode_frame({k}=…) is {dk.get(k)!r}, expected {v!r}')
